@@ -88,6 +88,11 @@ class Rt:
     def rec(self, kind, **kw):
         kw['k'] = kind
         kw['t'] = self.now()
+        # consecutive empty passes of one instance's inline polling loop are recorded as one entry with a count
+        if kind == 'pollYield' and self.log and self.log[-1]['k'] == 'pollYield' and self.log[-1]['i'] == kw['i'] \
+                and self.log[-1]['t'] == kw['t']:
+            self.log[-1]['n'] += 1
+            return self.log[-1]
         self.log.append(kw)
         return kw
 
@@ -426,8 +431,9 @@ class TBus(EventBus):
             return r
         except BaseException as ex:
             res = {'RuntimeError': 'capacity', 'QueueFull': 'queueFull', 'QueueShutDown': 'shutDown'}.get(type(ex).__name__, type(ex).__name__)
+            _par, n = lineage()
             RT.rec('dispatch', p=p, b=b, e=e, res=res, hist=bussnap(self)['hist'],
-                   q=bussnap(self)['q'])
+                   q=bussnap(self)['q'], nchild=n)
             raise
 
     def _start(self):
@@ -512,6 +518,28 @@ def traced_event_result_update(self, handler, eventbus=None, **kwargs):
 BaseEvent.event_result_update = traced_event_result_update
 
 
+class _AsyncioForModels:
+    """stands in for the `asyncio` module inside bubus.models: its only `sleep(0)` is the yield of an empty pass of the
+    inline polling loop in BaseEvent.__await__, which is recorded (label pollYield) before it is performed"""
+
+    def __getattr__(self, name):
+        return getattr(asyncio, name)
+
+    async def sleep(self, delay, *a, **k):
+        if delay == 0:
+            try:
+                t = asyncio.current_task()
+            except RuntimeError:
+                t = None
+            i = RT.inst_of_task.get(t) if t is not None else None
+            if i is not None:
+                RT.rec('pollYield', i=i, n=1)
+        return await asyncio.sleep(delay, *a, **k)
+
+
+mdl.asyncio = _AsyncioForModels()
+
+
 def mk_types(sc):
     types = {}
     for name, spec in sc['types'].items():
@@ -529,6 +557,7 @@ def mk_types(sc):
 async def run_prog(i, bi, event, prog, sync):
     """interpret a handler program; `sync` programs contain no suspending instruction"""
     slots = {}
+    made = {}        # every event object the program created, accepted or refused (a refused one may be dispatched again)
     ret = None
     for ins in prog:
         op = ins[0]
@@ -536,12 +565,13 @@ async def run_prog(i, bi, event, prog, sync):
             await asyncio.sleep(ins[1])
         elif op == 'dispatch':
             ev = mk_event(ins[2])
+            made[ins[3]] = ev
             try:
                 slots[ins[3]] = RT.buses[ins[1]].dispatch(ev)
             except Exception:
                 slots[ins[3]] = None
         elif op == 'redispatch':
-            ev = slots.get(ins[1])
+            ev = slots.get(ins[1]) or made.get(ins[1])
             if ev is not None:
                 try:
                     RT.buses[ins[2]].dispatch(ev)
@@ -554,8 +584,13 @@ async def run_prog(i, bi, event, prog, sync):
                 slots[ins[3]] = RT.buses[ins[1]].dispatch(ev)
             except Exception:
                 slots[ins[3]] = None
-        elif op == 'await':
-            ev = slots.get(ins[1])
+        elif op in ('await', 'await_sibling_child'):
+            if op == 'await':
+                ev = slots.get(ins[1])
+            else:
+                # the first child of the handled event, dispatched by whichever handler of it (a sibling on a parallel bus)
+                kids = list(event.event_children)
+                ev = kids[0] if kids else None
             if ev is not None:
                 c = eid(ev)
                 RT.rec('awaitBegin', i=i, e=c)
@@ -718,6 +753,11 @@ async def ext_task(x, prog, slots):
                 RT.rec('stopNoop', x=x, b=op[1])
                 await b.stop(clear=clear)
             continue
+        if o == 'on':
+            # a handler registered while the buses are running
+            RT.rec('on', h=op[1])
+            register_handler(op[1], RT.sc['handlers'][op[1]])
+            continue
         if o == 'cancelrl':
             b = RT.buses[op[1]]
             if b._runloop_task is not None and not b._runloop_task.done():
@@ -844,6 +884,36 @@ async def ext_task(x, prog, slots):
                 RT.blocked.pop(x, None)
 
 
+def register_handler(k, h):
+    """register handler k of the scenario the way its description says (at set-up, or later by a task: `late`)"""
+    sc = RT.sc
+    bus = RT.buses[h['bus']]
+    RT.hkind[k] = h['kind']
+    if h['kind'] == 'forward':
+        fn = RT.buses[h['target']].dispatch
+    else:
+        fn = make_handler(h['bus'], k, h)
+        if h.get('retry') and h['kind'] == 'async':
+            from bubus.helpers import retry
+            fn = retry(wait=0, retries=0, timeout=4096)(fn)
+        if h.get('method'):
+            # registered as a bound method of an object (a new bound-method object on every attribute access)
+            if h['method'] in ('own', 'other'):
+                # a bound method of a bus object itself (an EventBus subclass handling events with its own methods),
+                # or of another bus of the scenario
+                owner = RT.buses[h['bus'] if h['method'] == 'own' else (h['bus'] + 1) % len(RT.buses)]
+                fn = make_bus_method_handler(fn, h['kind'] == 'sync', k, owner)
+            else:
+                fn = make_method_handler(fn, h['kind'] == 'sync', k)
+    keys = h.get('keys') or [h['key']]
+    for key in keys:
+        # the three pattern kinds: '*' , the type name, or (byclass) the event class itself
+        bus.on(RT.types[key] if h.get('byclass') and key != '*' else key, fn)
+    # the id bubus will use for this handler
+    RT.hidx[(h['bus'], id(bus.handlers[keys[0]][-1]))] = k
+    RT.hfn[(h['bus'], k)] = bus.handlers[keys[0]][-1]
+
+
 def quiet_window(sc):
     """a stretch of virtual time longer than any silent period a scenario's programs can produce
     (consecutive sleeps of one program, the largest timeout in use), so that "nothing recorded for that long" means rest"""
@@ -887,31 +957,9 @@ async def run_sc(sc):
         EventBus.all_instances.order = sc.get('bus_order')
     RT.rec('init', nb=len(RT.buses))
     for k, h in enumerate(sc['handlers']):
-        bus = RT.buses[h['bus']]
         RT.hkind[k] = h['kind']
-        if h['kind'] == 'forward':
-            fn = RT.buses[h['target']].dispatch
-        else:
-            fn = make_handler(h['bus'], k, h)
-            if h.get('retry') and h['kind'] == 'async':
-                from bubus.helpers import retry
-                fn = retry(wait=0, retries=0, timeout=4096)(fn)
-            if h.get('method'):
-                # registered as a bound method of an object (a new bound-method object on every attribute access)
-                if h['method'] in ('own', 'other'):
-                    # a bound method of a bus object itself (an EventBus subclass handling events with its own methods),
-                    # or of another bus of the scenario
-                    owner = RT.buses[h['bus'] if h['method'] == 'own' else (h['bus'] + 1) % len(RT.buses)]
-                    fn = make_bus_method_handler(fn, h['kind'] == 'sync', k, owner)
-                else:
-                    fn = make_method_handler(fn, h['kind'] == 'sync', k)
-        keys = h.get('keys') or [h['key']]
-        for key in keys:
-            # the three pattern kinds: '*' , the type name, or (byclass) the event class itself
-            bus.on(RT.types[key] if h.get('byclass') and key != '*' else key, fn)
-        # the id bubus will use for this handler
-        RT.hidx[(h['bus'], id(bus.handlers[keys[0]][-1]))] = k
-        RT.hfn[(h['bus'], k)] = bus.handlers[keys[0]][-1]
+        if not h.get('late'):
+            register_handler(k, h)
     tasks = []
     for x, prog in enumerate(sc['tasks']):
         tasks.append(asyncio.ensure_future(ext_task(x, prog, {})))
